@@ -136,7 +136,8 @@ func (s RefSpec) Dst(n plumbing.ReferenceName) plumbing.ReferenceName {
 
 // Reverse returns the RefSpec with source and destination swapped.
 func (s RefSpec) Reverse() RefSpec {
-	spec := string(s)
+	// the force marker belongs to the refspec, not to its source side
+	spec := strings.TrimPrefix(string(s), refSpecForce)
 	before, after, _ := strings.Cut(spec, refSpecSeparator)
 
 	return RefSpec(after + refSpecSeparator + before)
